@@ -97,8 +97,23 @@ def spaces(tier, seed):
                 if k1 == k2 or {(k1, str(v1)), (k2, str(v2))} == {("bands", "2"), ("pre", "['cbca']")}:
                     continue  # cbca does not support multiband images (outside this property)
                 lvl2.append(dict(DEFAULT, rows=r, cols=c, S=S, f=f, interval=[-3, 3], seed=seed, **{k1: v1, k2: v2}))
+    # machine reuse: job B on a machine that already checked and ran job A (every ordered pair of a small set of
+    # configurations that differ in marge / factor / scales / window / validation), with and without re-checking
+    base = dict(DEFAULT, rows=9, cols=12, interval=[-3, 3], seed=seed)
+    variants = [dict(base, S=2, f=2), dict(base, S=2, f=2, marge=0), dict(base, S=2, f=2, marge=2),
+                dict(base, S=3, f=2), dict(base, S=2, f=3), dict(base, S=2, f=2, window=5),
+                dict(base, S=2, f=2, interval=[1, 5]), dict(base, S=3, f=2, marge=2, interval=[-4, 4]),
+                dict(base, S=2, f=2, validation="post"), dict(base, S=2, f=2, pre=["refinement"])]
+    reuse = []
+    for a in variants:
+        for b in variants:
+            if a is b:
+                continue
+            for recheck in (True, False):
+                reuse.append(dict(b, prior=a, recheck=recheck))
     return [
         {"name": "default environment: shapes x scales x factors x intervals", "level": 0, "cases": lvl0},
+        {"name": "machine reuse: job B after job A on one machine object", "level": 2, "cases": reuse},
         {"name": "one departure (marge, bands, mask, window, measure, steps around, validation)", "level": 1,
          "cases": lvl1},
         {"name": "two departures", "level": 2, "cases": lvl2},
@@ -209,10 +224,28 @@ def run_case(case):
     L0, R0 = L.copy(deep=True), R.copy(deep=True)
     viol = []
 
-    def bad(clause, cls, detail):
-        viol.append({"clause": clause, "key": f"C15/{clause}/{cls}", "detail": f"{detail} | case={case}"})
+    reuse = "" if not case.get("prior") else ("/machine-reused" + ("" if case.get("recheck", True) else "-without-recheck"))
 
-    obs = P.run_observed(L, R, pipe, snapshot=("cv", "disp"))
+    def bad(clause, cls, detail):
+        viol.append({"clause": clause, "key": f"C15/{clause}/{cls}{reuse}", "detail": f"{detail} | case={case}"})
+
+    machine = None
+    do_check = True
+    if case.get("prior"):
+        # machine reuse: the same PandoraMachine object first checked and ran another multiscale job
+        from pandora.state_machine import PandoraMachine  # pylint: disable=import-outside-toplevel
+
+        machine = PandoraMachine()
+        pa = dict(case["prior"])
+        La, Ra, pipea = build(pa)
+        prior = P.run_observed(La, Ra, pipea, machine=machine, observe=False)
+        if prior.error:
+            return {"n": 1, "sigs": [], "viol": [], "trivial": 1}  # the prior job is judged by its own case
+        if not case.get("recheck", True):
+            checked = P.check(PandoraMachine(), L, R, pipe)  # configuration completed by another machine
+            pipe = checked["pipeline"]
+            do_check = False
+    obs = P.run_observed(L, R, pipe, machine=machine, do_check=do_check, snapshot=("cv", "disp"))
     bandcls = "multiband" if case["bands"] == 2 else "monoband"
     if obs.error:
         bad("runs", f"{obs.error[0]}/{type(obs.error[1]).__name__}/{bandcls}", f"{obs.error[0]} raised {obs.error[1]!r}")
